@@ -8,7 +8,7 @@
 use crate::engine::{Ctx, Meta, Prop, Tier, Violation};
 use crate::lockstep::*;
 use crate::prng::Rng;
-use crate::props::c03::{gen_case, nontrivial_hash, reach_counts};
+use crate::props::c03::{nontrivial_hash, reach_counts};
 
 pub struct C17;
 
@@ -46,7 +46,8 @@ impl Prop for C17 {
 
     fn generate(rng: &mut Rng, ctx: &mut Ctx) -> ProgCase {
         let faults = rng.chance(1, 2);
-        let mut c = gen_case(rng, ctx, true, true, faults);
+        let rng_flag = rng.chance(1, 3);
+        let mut c = crate::props::c03::gen_case_with(rng, ctx, true, true, faults, rng_flag);
         c.tracing = true;
         c.warnings = true;
         c.trace_via_command = rng.chance(1, 3);
